@@ -131,6 +131,53 @@ theorem C18_batched_grows_by_batch (p p' : Pool) (b : Batch) (h : generateBlock 
     rw [hbp]
     exact hI.grown x
 
+/-- **never below the committed nonce**: in a pool whose batched-and-uncommitted pointers all lie at or above their account's committed
+nonce — a pool that has just been started (or restarted: nothing is batched, the committed nonces are re-read from the ledger), and
+every pool reached from one by batch building — no pointer of the next batch carries a nonce below the committed nonce of its
+account: the first one of an account carries exactly that nonce, every other one the successor of a batched one -/
+theorem C18_never_below_commit_nonce (p : Pool) (hinv : ∀ x ∈ p.batched, cn p x.1 ≤ x.2) :
+    ∀ ptr ∈ batchPointers p, cn p ptr.1 ≤ ptr.2 := by
+  have key : ∀ (n : Nat) (a : String), (a, n) ∈ batchPointers p → cn p a ≤ n := by
+    intro n
+    induction n using Nat.strongRecOn with
+    | _ n ih =>
+      intro a hmem
+      rcases (C18_generate_gap_free_no_repeat p).2.2 (a, n) hmem with h | ⟨h1, h2 | h2⟩
+      · exact Nat.le_of_eq h.symm
+      · have := hinv (a, n - 1) h2
+        simp only at this h1
+        omega
+      · have := ih (n - 1) (by simp only at h1; omega) a h2
+        simp only at h1
+        omega
+  intro ptr h
+  exact key ptr.2 ptr.1 h
+
+/-- a pool that was just (re)started has nothing batched: the hypothesis holds -/
+example (p : Pool) (h : p.batched = []) : ∀ x ∈ p.batched, cn p x.1 ≤ x.2 := by
+  intro x hx; rw [h] at hx; cases hx
+
+/-- … and batch building keeps the hypothesis: after a batch was generated the pool's committed nonces are the ones from before and
+everything batched (old and new) lies at or above them — so the statement holds for every batch of a run of the leader between two
+commit notifications, from the (re)start on -/
+theorem C18_generate_keeps_batched_above_commit (p p' : Pool) (b : Batch) (h : generateBlock p = (p', some b))
+    (hinv : ∀ x ∈ p.batched, cn p x.1 ≤ x.2) : ∀ x ∈ p'.batched, cn p' x.1 ≤ x.2 := by
+  have hcn : ∀ a, cn p' a = cn p a := by
+    intro a
+    unfold generateBlock at h
+    simp only at h
+    generalize hl : (if p.nonBatch > p.batchSize then p.batchSize else p.nonBatch) = limit at h
+    have hI := fold_binv p limit (sortPrio p.priority) { pool := p } (binv_init p)
+    split at h
+    · cases h
+    · cases h
+      exact hI.cnSame a
+  intro x hx
+  rw [hcn]
+  rcases (C18_batched_grows_by_batch p p' b h x).mp hx with h1 | h1
+  · exact hinv x h1
+  · exact C18_never_below_commit_nonce p hinv x h1
+
 /-- **batch sequence numbers increase by one**: a generated batch carries the previous sequence number plus one, and a
 call that generates nothing leaves the number alone -/
 theorem C18_seqno_steps_by_one (p : Pool) :
